@@ -14,5 +14,6 @@ for r in REGISTRY.values():
 print(" ".join(sorted(set(mods))))
 PY
 )
+/venv/bin/python tools/py2lean.py --repo "${VERIF_REPO:-/repo}" --out lean/Gen || true
 cd lean
 lake build driver $MODS
